@@ -36,6 +36,7 @@ pub fn scopes(rep: &Report, checks: Checks) {
     let pool3 = ["a", "a.a", "a[0]", "b"];
     let nt3 = named_trees(3, 3, &pool3);
     run_structures(rep, "name-relation family 3: member names drawn from {a, a.a, a[0], b} (names that spell another node's path) x {NoSD, Top, All} x all selections", &nt3, &fixed_strategies, &cheap, checks, true);
+    run_structures(rep, "path-spelling collisions: two objects with hidden content whose textual paths coincide (10 trees) x {NoSD, Top, All} x all selections", &path_collision_trees(), &fixed_strategies, &cheap, checks, true);
     // D3: pairs of special strings in one container
     let pairs = pair_alphabet_trees();
     run_structures(rep, "string-pair pass: every ordered pair of the string alphabet side by side in 5 container shapes x {Top, All, 2 Custom}", &pairs, &pair_strategies, &cheap, checks, false);
